@@ -386,6 +386,14 @@ def exec_pressure_family():
                      '{ goal q = new l2.Q(); q.start >= 1.0; } or { goal r = new l2.R(); r.start >= 20.0; r.start - p.end >= p.start - %s; } or '
                      '{ goal s0 = new l2.S(); s0.start >= 20.0; goal s1 = new l2.S(); s1.start >= 30.0; }' % f(k)]
                 out.append(('fe_line_%d_%d_%d' % (k, pstart, qdur), ['\n'.join(L) + '\n'], True))
+    # a long atom A; next to it either a short job, or (dearer) a fallback whose start is tied to A's start through a window
+    # that a free variable can widen: after the short job fails and the fallback is delayed, the window must widen - A has
+    # started and must not move
+    for lo, hi in ((6, 8), (4, 6)):
+        L = ['predicate A() : Interval { duration >= 10.0; }', 'predicate B1() : Interval { duration >= 2.0; }',
+             'predicate B3(real slack) : Interval { duration >= 3.0; slack >= 0.0; }', 'goal a = new A();',
+             '{ goal b1 = new B1(); b1.start >= a.start + 4.0; } [1.0] or { goal b3 = new B3(); b3.start >= a.start + %s; b3.start <= a.start + %s + b3.slack; } [3.0]' % (f(lo), f(hi))]
+        out.insert(0, ('fe_slack_%d_%d' % (lo, hi), ['\n'.join(L) + '\n'], True))
     return out
 
 
